@@ -15,7 +15,8 @@ def load_props():
     pd = os.path.join(HERE, "props")
     for pid in sorted(os.listdir(pd)):
         path = os.path.join(pd, pid, "check.py")
-        if not os.path.exists(path):
+        # only integrated (claimed) properties take part in setup: work in progress must not break it
+        if not os.path.exists(path) or not os.path.exists(os.path.join(pd, pid, "manifest.json")):
             continue
         spec = importlib.util.spec_from_file_location("prop_" + pid, path)
         mod = importlib.util.module_from_spec(spec)
@@ -37,7 +38,8 @@ def main():
             ok = False
             print("setup: translator failed for", P.pid, b.what, b.detail[-2000:])
     vlib.coq_project()
-    rc, out = vlib.run(["make", "-j%d" % vlib.NPROC], cwd=vlib.COQ, timeout=3 * 3600)
+    targets = sorted({t for P in props for t in P.coq_targets})
+    rc, out = vlib.run(["make", "-j%d" % vlib.NPROC] + targets, cwd=vlib.COQ, timeout=3 * 3600)
     print("\n".join(l for l in out.split("\n") if not l.startswith("Closed under") and l.strip())[-6000:])
     if rc != 0:
         ok = False
